@@ -1,6 +1,9 @@
 package main
 
-import "strings"
+import (
+	"go/types"
+	"strings"
+)
 
 // splitArgs splits the arguments of an s-expression application
 // "(f a b c)" into [f a b c] (paren-aware).
@@ -90,4 +93,21 @@ func simplifySel(s string) string {
 		return s
 	}
 	return s
+}
+
+// isU8 reports whether t is an 8 bit unsigned integer type (byte).
+func isU8(t types.Type) bool {
+	if t == nil {
+		return false
+	}
+	b, ok := t.Underlying().(*types.Basic)
+	return ok && b.Kind() == types.Uint8
+}
+
+// mirrorName: field name used in the mirror struct of a foreign struct type.
+func mirrorName(f *types.Var) string {
+	if f.Embedded() {
+		return "E" + f.Name()
+	}
+	return f.Name()
 }
